@@ -115,8 +115,12 @@ pub(crate) fn scan_and_apply_units<S: TexlangState>(
             }
             super::OptionalSpace::parse(input)?;
             return match Scaled::from_integer(integer_part) {
-                Ok(integer_part) => Ok(integer_part + fractional_part),
-                Err(_) => handle_overflow(input, first_token, false),
+                // The fraction can be exactly 2^16 (TeX.2021.102), so the sum can reach 2^30;
+                // TeX.2021.448 (attach_sign) range-checks the sum.
+                Ok(integer_part) if integer_part + fractional_part <= Scaled::MAX_DIMEN => {
+                    Ok(integer_part + fractional_part)
+                }
+                _ => handle_overflow(input, first_token, false),
             };
         }
     }
